@@ -23,7 +23,6 @@ from enum import Enum
 from struct import Struct, error as StructError, pack
 from uuid import UUID, uuid4 as get_uuid
 import builtins
-import collections
 import copy
 import io
 import re
@@ -1480,7 +1479,7 @@ class Element(Mapping[str, Attribute]):
         # This is a (attr, index, uuid, line_num) tuple.
         fixups: list[tuple[Attribute, Optional[int], UUID, int]] = []
         # Ensure these reuse the same objects.
-        stubs: dict[UUID, StubElement] = collections.defaultdict(StubElement.stub)
+        stubs: dict[UUID, StubElement] = {}
 
         elements = []
 
@@ -1581,7 +1580,11 @@ class Element(Mapping[str, Attribute]):
                                         raise tok.error('Invalid UUID "{}"!', uuid_str) from exc
                                     fixups.append((attr, len(array), uuid, tok.line_num))
                                     # If UUID is present, this stub will be overwritten later.
-                                    array.append(stubs[uuid])
+                                    try:
+                                        array.append(stubs[uuid])
+                                    except KeyError:
+                                        stubs[uuid] = stub = StubElement.stub(uuid)
+                                        array.append(stub)
                                 else:
                                     array.append(NULL)
                             else:
@@ -1612,7 +1615,10 @@ class Element(Mapping[str, Attribute]):
                         uuid = UUID(uuid_str)
                     except ValueError as exc:
                         raise tok.error('Invalid UUID "{}"!', uuid_str) from exc
-                    attr.val_elem = stubs[uuid]
+                    try:
+                        attr.val_elem = stubs[uuid]
+                    except KeyError:
+                        attr.val_elem = stubs[uuid] = StubElement.stub(uuid)
                     fixups.append((attr, None, uuid, tok.line_num))
                     # If the element is present, the stub value  will be overwritten after.
                 # else: If blank, it's a NULL.
